@@ -957,10 +957,10 @@ def _one(ctx, res, prop, name, cap, observer, oracles=(), driver=True):
     import kwnruns
     rng = _scenario_rng(ctx, name)
     m, simt = scenario(name, rng)
-    pbm0 = _pbm_config(m)
     opts = name.split('@')[1:]
     if 'record' in opts:
         m.setPSDrecording(True)
+    pbm0 = _pbm_config(m)          # the configuration as the user left it (after every setter of the scenario)
     rec = attach(m, capture_setup=not m._isSetup)
     try:
         solver = 'rk4' if 'rk4' in opts else 'euler'
